@@ -16,6 +16,19 @@ let () =
           let (segs, o) = SplitLine.splitquote (chars_of_hex hx) (optq (int_of_string stop)) (low = "1") in
           let f = function SplitLine.Plain t -> "P:" ^ hex_of_chars t | SplitLine.Quoted t -> "Q:" ^ hex_of_chars t in
           Printf.printf "%s ; %d\n%!" (String.concat "|" (Stdlib.List.map f segs)) (qcode o)
+      | "RM" :: segs ->
+          (* RM p<hex> g<hex> ... : the key bookkeeping of string_replace_map on plain / group segments;
+             prints the key sequence and whether restoring gives the segments back *)
+          let paren c = '(' :: (Stdlib.List.append c [')']) in
+          let rec i_of_n = function Datatypes.O -> 0 | Datatypes.S k -> 1 + i_of_n k in
+          let l = Stdlib.List.filter_map (fun w ->
+            if String.length w = 0 then None
+            else let body = chars_of_hex (String.sub w 1 (String.length w - 1)) in
+              Some (if w.[0] = 'g' then ReplaceMap.SGroup body else ReplaceMap.SPlain body)) segs in
+          let (o, m) = ReplaceMap.string_replace_map paren false l in
+          let keys = Stdlib.List.filter_map (function ReplaceMap.RKey k -> Some (string_of_int (i_of_n k)) | _ -> None) o in
+          let ok = (match ReplaceMap.restore m o with Some l2 -> l2 = l | None -> false) in
+          Printf.printf "%s ; %d\n%!" (String.concat " " keys) (if ok then 1 else 0)
       | ["SP"; hx] ->
           let segs = SplitLine.splitparen (chars_of_hex hx) in
           let f = function SplitLine.Flat t -> "F:" ^ hex_of_chars t | SplitLine.Paren t -> "P:" ^ hex_of_chars t in
